@@ -39,6 +39,16 @@ pub fn gen_case(rng: &mut Rng, idx: usize, thorough: bool) -> Value {
         let (g, t) = &fams[[n - 4, n - 3, n - 2, n - 1][(idx / 6) % 4]];
         return json!({"grammar": g.to_json(), "texts": t.iter().map(|t| crate::vocab::hex(t.as_bytes())).collect::<Vec<_>>(), "slices": true, "seed": rng.next() % 1_000_000_000, "steps": steps});
     }
+    if idx % 6 == 5 {
+        // lazy lexemes alive next to greedy lexemes that contain a slice, and slice lists with several siblings: a token
+        // that crosses the end of the lazy lexeme must be judged byte by byte whatever the slicer's shortcut says
+        let fams = crate::c10::lark_families();
+        // (this branch sees idx = 11, 23, 35, ...: idx % 4 == 1 is taken by the regex cases above)
+        let fi = (idx / 12 + 6) % fams.len();
+        let (g, t, sl) = &fams[fi];
+        let slices = match sl { Some(v) => json!(v), None => json!(llguidance::earley::SlicedBiasComputer::general_slices()) };
+        return json!({"grammar": g.to_json(), "texts": t.iter().map(|t| crate::vocab::hex(t.as_bytes())).collect::<Vec<_>>(), "slices": true, "slice_list": slices, "slice_family": fi, "seed": rng.next() % 1_000_000_000, "steps": steps});
+    }
     let (g, texts) = eng::gen_grammar(rng, idx);
     json!({"grammar": g.to_json(), "texts": texts.iter().map(|t| crate::vocab::hex(t)).collect::<Vec<_>>(), "slices": (idx / 3) % 2 == 1, "seed": rng.next() % 1_000_000_000, "steps": steps})
 }
@@ -53,7 +63,8 @@ pub fn run_case(_ctx: &Ctx, case: &Value, tag: usize, rep: &mut Report, mb: &mut
     let sb = vocab::single_byte_words();
     let sb_eos = sb.len() as u32 - 1;
     // half of the cases with the default token slices: the slicer's shortcuts must not depend on the vocabulary either
-    let sl = llguidance::earley::SlicedBiasComputer::general_slices();
+    if let Some(f) = case.get("slice_family").and_then(|v| v.as_u64()) { rep.count(&format!("case.slice_family={f}")); }
+    let sl: Vec<String> = match case.get("slice_list").and_then(|v| v.as_array()) { Some(a) => a.iter().map(|x| x.as_str().unwrap_or("").to_string()).collect(), None => llguidance::earley::SlicedBiasComputer::general_slices() };
     let slices = if case["slices"].as_bool().unwrap_or(false) { Some(&sl[..]) } else { None };
     let (Ok(wa), Ok(wb), Ok(wc)) = (World::new(wa_words, wa_eos, false, slices), World::new(sb, sb_eos, false, slices), World::new(wc_words, wc_eos, false, slices)) else { rep.skip("world"); return; };
     let mut a = wa.matcher(&g);
